@@ -35,7 +35,8 @@ ASSUMPTIONS = [
 ]
 
 SER = ["id", "wrap", "str", "raise", "for_types"]
-KINDS = ["message", "start", "success", "failed", "write+serializer", "write"]
+KINDS = ["message", "start", "success", "failed", "write+serializer", "write",
+         "write+serializer, type field missing", "write+serializer, type field wrong"]
 
 
 class Obj(object):
@@ -77,6 +78,8 @@ def cases(unit, tier):
                     for parent in (0, 1):
                         if kind == 5 and (missing is not None or any(sers)):
                             continue  # write(dict) without serializer: definition irrelevant
+                        if kind in (6, 7) and (missing is not None or any(s_ == 3 for s_ in sers)):
+                            continue
                         if kind == 3 and (missing is not None):
                             continue
                         yield [sers, kind, missing, extra, glob, parent]
@@ -121,7 +124,7 @@ def run_case(case):
         given["extra"] = vals[3] if n < 4 else 1
     snapshot = copy.deepcopy({k: v for k, v in given.items() if not isinstance(v, Obj)})
     identities = dict(given)
-    expect_fail = (missing is not None or any(s == 3 for s in sers)) and kind in (0, 1, 2, 4)
+    expect_fail = ((missing is not None or any(s == 3 for s in sers)) and kind in (0, 1, 2, 4)) or kind == 6
 
     def go():
         seen = []
@@ -166,6 +169,12 @@ def run_case(case):
                 n_after = len(seen)
             elif kind == 4:
                 caller_dict = dict(given, message_type="c13:msg", task_uuid="u", task_level=[1], timestamp=1.0)
+                Logger().write(caller_dict, MT._serializer)
+            elif kind == 6:
+                caller_dict = dict(given, task_uuid="u", task_level=[1], timestamp=1.0)
+                Logger().write(caller_dict, MT._serializer)
+            elif kind == 7:
+                caller_dict = dict(given, message_type="not:the:type", task_uuid="u", task_level=[1], timestamp=1.0)
                 Logger().write(caller_dict, MT._serializer)
             else:
                 caller_dict = dict(given, message_type="c13:plain", task_uuid="u", task_level=[1], timestamp=1.0)
@@ -212,6 +221,8 @@ def run_case(case):
     else:
         under_test = [m for m in new if not is_report(m) and m.get("action_type") != "c13:parent"]
         others = []
+    if kind == 7 and len(under_test) == 1 and under_test[0].get("message_type") != "c13:msg":
+        viol.append(("declared-type-field-not-serialized", {"case": case, "got": under_test[0].get("message_type")}))
     reports = [m for m in new if is_report(m)]
     meta = ("task_uuid", "task_level", "timestamp", "message_type", "action_type", "action_status", "gf")
 
@@ -252,7 +263,7 @@ def run_case(case):
             else:
                 want = {}
                 for k, v in given.items():
-                    if k in names and kind != 5:
+                    if k in names and kind not in (5,):
                         s = sers[names.index(k)]
                         want[k] = v if s in (0, 4) else (["ser", v] if s == 1 else str(v))
                     else:
@@ -278,7 +289,9 @@ def run_case(case):
         if v != snapshot[k]:
             viol.append(("caller-value-mutated", {"case": case, "field": k, "now": repr(v)[:100]}))
     if caller_dict is not None:
-        wantd = dict(identities, message_type=caller_dict["message_type"], task_uuid="u", task_level=[1], timestamp=1.0)
+        wantd = dict(identities, task_uuid="u", task_level=[1], timestamp=1.0)
+        if kind != 6:
+            wantd["message_type"] = "not:the:type" if kind == 7 else caller_dict["message_type"]
         if set(caller_dict) != set(wantd) or any(caller_dict[k] is not wantd[k] and caller_dict[k] != wantd[k] for k in wantd):
             viol.append(("caller-dict-mutated", {"case": case, "now": sorted(caller_dict), "want": sorted(wantd)}))
         elif any(caller_dict[k] is not identities[k] for k in identities):
